@@ -550,6 +550,17 @@ def ref_parse_one(data, kind="response", reqmethod="GET", eof=False):
     if nobody:
         m["framing"] = "nobody"
         m["body"] = b""
+        if te == "chunked":
+            # ioflo's server ends a bodiless response that has no Content-Length with the last-chunk `0 CRLF CRLF` and its
+            # client consumes it (RFC 7230 would send no Transfer-Encoding here); the pair agrees, so the reference accepts
+            # the terminator, when it is there, as part of this response
+            term = b"0\r\n\r\n"
+            got = data[pos:pos + len(term)]
+            if got and term.startswith(got) and got != term:
+                return None            # the terminator is still arriving
+            if got == term:
+                pos += len(term)
+                m["framing"] = "nobody+last-chunk"
     elif te == "chunked":
         m["framing"] = "chunked"
         body = bytearray()
